@@ -16,6 +16,22 @@ __all__ = [
 ]
 
 
+def _submodule_name(path, taken):
+    """Flatten a field or register path into a submodule name that is unique among ``taken``.
+
+    Distinct paths can flatten to the same string (``("a", "b")`` and ``("a__b",)``, or ``("a", 0)``
+    and ``("a", "0")``); a suffix keeps the later one apart instead of failing elaboration.
+    """
+    name = "__".join(str(part) for part in path)
+    if name in taken:
+        index = 0
+        while f"{name}__{index}" in taken:
+            index += 1
+        name = f"{name}__{index}"
+    taken.add(name)
+    return name
+
+
 class FieldPort(wiring.PureInterface):
     class Access(enum.Enum):
         """Field access mode."""
@@ -541,13 +557,14 @@ class Register(wiring.Component):
         m = Module()
 
         field_start = 0
+        submodule_names = set()
 
         for field_path, field in self:
             field_width = Shape.cast(field.port.shape).width
             field_slice = slice(field_start, field_start + field_width)
 
             if field_path:
-                m.submodules["__".join(str(key) for key in field_path)] = field
+                m.submodules[_submodule_name(field_path, submodule_names)] = field
             else: # avoid empty name for a single un-named field
                 m.submodules += field
 
@@ -794,8 +811,9 @@ class Bridge(wiring.Component):
         m = Module()
 
         m.submodules.mux = self._mux
+        submodule_names = {"mux"}
         for reg, reg_name, _ in self.bus.memory_map.resources():
-            m.submodules["__".join(str(part) for part in reg_name)] = reg
+            m.submodules[_submodule_name(reg_name, submodule_names)] = reg
 
         connect(m, flipped(self.bus), self._mux.bus)
 
